@@ -5,11 +5,12 @@ _m(
     "exploration",
     "Four strata.  filter: ALL even sizes 4..256 x {ramp, shepp-logan, cosine, hamming, hann, None} are enumerated "
     "(762 cases, every run).  radon (Hypothesis): square size N in 4..48 (parity drawn explicitly, small sizes favoured), 1..12 "
-    "angles in [0,180] (0/90/180/45/135/1/89/91/179 mixed with arbitrary floats, repeats allowed) held in a float32 or float64 "
-    "tensor, batch of 1..3 float32 images (Gaussian mixtures | sums of rectangles | white noise | 1-3 single-pixel impulses "
+    "angles in [0,180] (0/90/180/45/135/1/89/91/179 mixed with arbitrary floats, repeats allowed) held in a float32, float64 or "
+    "(whole degrees only) int64/int32/uint8 tensor, batch of 1..3 float32 images (Gaussian mixtures | sums of rectangles | white noise | 1-3 single-pixel impulses "
     "anywhere in the disc or on its rim / next to the centre; amplitude 1e-3, 1 or 1e3; all multiplied by the scikit-image "
     "disc mask), plus a partner image and two coefficients for linearity.  iradon (Hypothesis): same N/angles/batch, filter in "
-    "the six names, circle True (4 in 5) or False, float32 sinograms (white noise | scikit-image radon of a generated image | "
+    "the six names, circle True (4 in 5) or False, sinogram tensor dtype drawn independently of the theta dtype: float32 (1 in 2), "
+    "float64, or integer detector counts int64/int32/int16/uint8 (pattern x16, rounded, |v| < 2^15); sinograms (white noise | scikit-image radon of a generated image | "
     "1-3 impulses incl. first/last/centre detector bins | all ones, the SIRT normalisation input), plus a partner sinogram "
     "and coefficients.  large problems (label large_problem): a fixed grid of (kind, N, angles A, batch B, filter, circle) rows - "
     "quick 11 rows: iradon N 64..181, A 60..360, B 1..3 with B*out^2*A placed just below and just above 2^20, 2^22 and 2^24, every "
@@ -24,8 +25,11 @@ _m(
         "references are scikit-image 0.26 radon(circle=True), iradon(interpolation='linear', preserve_range=True) and "
         "radon_transform._get_fourier_filter, run in float64 on exactly the float32 values given to the torch code and "
         "transposed to the torch (angles, pixels) layout",
-        "images are zero outside the disc (scikit-image's documented precondition for circle=True); images and sinograms are "
-        "float32 (the only dtype the grid_sample pipeline accepts); theta is always passed explicitly (the theta=None defaults "
+        "images are zero outside the disc (scikit-image's documented precondition for circle=True); dtypes are those the pinned tree "
+        "accepts and handles correctly (probed): images float32 only (grid_sample rejects every other dtype), sinograms "
+        "float32/float64/int64/int32/int16/uint8, theta tensors float32/float64/int64/int32/uint8 (float16 theta is accepted but "
+        "computes in half precision: excluded; lists/ndarrays as theta raise: excluded); integer theta tensors hold whole degrees; "
+        "the linear combination of integer sinograms is passed as float32; theta is always passed explicitly (the theta=None defaults "
         "are outside the quantified angle sets); output_size is left at its default; square images only; sizes N <= 48 are explored "
         "densely, 64 <= N <= 256 with up to 512 angles only on the large-problem grid; nothing is claimed beyond N = 256 or "
         "B*out^2*A > 2^25.5",
